@@ -83,7 +83,7 @@ def main(argv):
     rep.assumptions = ['theorems: generic in the per-lane function (extensional; a load or a store), all 2^64 EXEC masks, all states, all lane permutations',
                        'sampled: which handlers are instances of the combinator']
     thorough = vlib.tier() == 'thorough'
-    n, ns, nc = (300, 120, 12) if thorough else (28, 16, 3)
+    n, ns, nc = (300, 120, 12) if thorough else (24, 14, 2)
 
     replay_file = argv[argv.index('--replay') + 1] if '--replay' in argv else None
 
